@@ -9,6 +9,7 @@ import Verif.Lemmas.C04
 
 namespace Verif.C04
 open Verif.Py
+open Verif.C01 (cdiv cdiv_le_iff)
 
 /-! ## Window membership: `self[a:b]` inside the downsampling loops -/
 
@@ -112,6 +113,39 @@ theorem over_errors (f : List Rat → Rat) (s : Src) (ranges : List (Int × Int)
 example : over (fun l => l.sum) (.ts [(0, 1), (3, 2), (5, 4)]) [(0, 4), (4, 6), (6, 9)] (some true)
     = .ok [(1, 3), (5, 4)] := by decide +kernel
 
+/-! ### `reduce` is an arbitrary callable (deepening round D) -/
+
+/-- `reduce` is an arbitrary callable: the answer of `downsampled_over` is the recorded windows with `reduce` applied
+    to each — whatever `reduce` is, it sees exactly `overWindows`. -/
+theorem over_factors (f : List Rat → Rat) (s : Src) (ranges : List (Int × Int)) (center : Bool) (out : List Sample)
+    (h : over f s ranges (some center) = .ok out) :
+    ∃ st sp, s.start? = some st ∧ s.stop? = some sp ∧
+      out = (overWindows s st sp center ranges).map fun w => (w.1, f w.2) := by
+  unfold over at h
+  split at h
+  · split at h
+    · rename_i st sp hst hsp
+      split at h
+      · cases h
+      · simp only [Except.ok.injEq] at h
+        refine ⟨st, sp, hst, hsp, ?_⟩
+        rw [← h]
+        unfold overWindows
+        rw [List.map_filterMap]
+        congr 1
+        funext r
+        exact overStep_eq_W f s center r
+    · cases h
+  · cases h
+
+/-- Observation behind the assumption "range lists are ordered in time" (kernel-checked test): the refusal test looks
+    at the FIRST start and the LAST stop only, so a list that is not in time order is refused although its first
+    window lies inside the channel. -/
+theorem over_unordered_witness :
+    over Reduce.sum.apply (.cont ⟨100, 10, [1, 2, 3, 4]⟩) [(110, 130), (0, 50)] (some true) = .error .runtime ∧
+    over Reduce.sum.apply (.cont ⟨100, 10, [1, 2, 3, 4]⟩) [(0, 50), (110, 130)] (some true) = .ok [(115, 5)] := by
+  decide +kernel
+
 /-! ## `downsampled_by` -/
 
 /-- `downsampled_by(k)` of a continuous channel: `⌊n/k⌋` samples; sample `i` is `f` of exactly the
@@ -131,11 +165,109 @@ theorem by_spec (f : List Rat → Rat) (c : Cont) (k : Nat) (hdt : 0 < c.dt) (hk
   intro i hi
   exact by_window f c k i hdt hk (List.mem_range.mp hi)
 
+/-- Deepening round D.  The blocks of `downsampled_by(k)` are exactly ALL windows `[start + i·k·dt, start + (i+1)·k·dt)`
+    of the grid that lie entirely within the span (`fullWindows`, the same list `to_all_full_windows` speaks about):
+    each is represented by one sample, they are pairwise disjoint (consecutive), non-empty and inside `[start, stop]`. -/
+theorem by_all_full_windows (f : List Rat → Rat) (c : Cont) (k : Nat) (hdt : 0 < c.dt) (hk : 0 < k) :
+    ∃ r, downBy f (.cont c) k = .ok r ∧
+      r.samples = (fullWindows c.start c.stop ((k : Int) * c.dt)).filterMap (fun w =>
+        windowSample f true w (c.samples.filter (inWin w.1 w.2))) ∧
+      (fullWindows c.start c.stop ((k : Int) * c.dt)).Pairwise (fun a b => a.2 ≤ b.1) ∧
+      (∀ w ∈ fullWindows c.start c.stop ((k : Int) * c.dt), w.1 < w.2 ∧ c.start ≤ w.1 ∧ w.2 ≤ c.stop) ∧
+      ∀ i : Nat, c.start + ((i : Int) + 1) * ((k : Int) * c.dt) ≤ c.stop →
+        (c.start + (i : Int) * ((k : Int) * c.dt), c.start + ((i : Int) + 1) * ((k : Int) * c.dt))
+          ∈ fullWindows c.start c.stop ((k : Int) * c.dt) := by
+  have hs : 0 < (k : Int) * c.dt := Int.mul_pos (by exact_mod_cast hk) hdt
+  obtain ⟨r, hr, _, hsm⟩ := by_spec f c k hdt hk
+  refine ⟨r, hr, ?_, ?_, ?_, ?_⟩
+  · rw [hsm, by_fullWindows c k hdt]
+    unfold blockWins
+    rw [List.filterMap_map]
+    congr 1
+    funext i
+    simp only [Function.comp]
+    have e : c.start + (i : Int) * ((k : Int) * c.dt) + (k : Int) * c.dt
+        = c.start + ((i : Int) + 1) * ((k : Int) * c.dt) := by ring
+    rw [e]
+  · unfold fullWindows blockWins
+    rw [List.pairwise_map]
+    refine List.pairwise_lt_range.imp ?_
+    intro i j hij
+    have : ((i : Int) + 1) * ((k : Int) * c.dt) ≤ (j : Int) * ((k : Int) * c.dt) :=
+      Int.mul_le_mul_of_nonneg_right (by omega) (Int.le_of_lt hs)
+    simp only; linarith
+  · intro w hw
+    obtain ⟨i, rfl, hi⟩ := (mem_fullWindows _ _ _ hs w).mp hw
+    have h1 : 0 ≤ (i : Int) * ((k : Int) * c.dt) := Int.mul_nonneg (by omega) (Int.le_of_lt hs)
+    refine ⟨?_, ?_, hi⟩ <;> simp only <;> linarith
+  · intro i hi
+    exact (mem_fullWindows _ _ _ hs _).mpr ⟨i, rfl, hi⟩
+
+example : fullWindows 100 170 30 = [(100, 130), (130, 160)] := by decide
+
 theorem by_ts_refused (f : List Rat → Rat) (l : List Sample) (k : Nat) :
     downBy f (.ts l) k = .error .notImpl := rfl
 
 example : (downBy (fun l => l.sum) (.cont ⟨100, 10, [1, 2, 3, 4, 5, 6, 7]⟩) 3).toOption.map (·.samples)
     = some [(110, 6), (140, 15)] := by decide +kernel
+
+/-! ### composition of two `downsampled_by` (deepening round D) -/
+
+/-- Composition: `downsampled_by(k₁)` followed by `downsampled_by(k₂)` has the SAME timestamps and period as
+    `downsampled_by(k₁·k₂)` (the two half-period shifts `dt(k₁-1)//2` and `dt·k₁(k₂-1)//2` never both round), and
+    its sample `i` is `g` of the `k₂` values `f(block)` of the `k₁`-blocks of the `i`-th `k₁·k₂`-block. -/
+theorem by_by (f g h : List Rat → Rat) (c : Cont) (k1 k2 : Nat) (hk1 : 0 < k1) (hk2 : 0 < k2) :
+    ∃ r1 r2 r12, downBy f (.cont c) k1 = .ok r1 ∧ downBy g (.cont r1) k2 = .ok r2 ∧
+      downBy h (.cont c) (k1 * k2) = .ok r12 ∧
+      r2.dt = r12.dt ∧ r2.timestamps = r12.timestamps ∧
+      r2.data = (blocks (k1 * k2) c.data).map (fun B => g ((blocks k1 B).map f)) ∧
+      r12.data = (blocks (k1 * k2) c.data).map h := by
+  obtain ⟨r1, r2, r12, h1, h2, h12, hst, hdt, hd2, hd12⟩ := by_by' f g h c k1 k2 hk1 hk2
+  refine ⟨r1, r2, r12, h1, h2, h12, hdt, ?_, hd2, hd12⟩
+  have hl : r2.data.length = r12.data.length := by rw [hd2, hd12]; simp
+  unfold Cont.timestamps Cont.stop
+  rw [hst, hdt, hl]
+
+/-- For `reduce = np.sum` the composition IS `downsampled_by(k₁·k₂)`: same samples, same timestamps, same period. -/
+theorem by_by_sum (c : Cont) (k1 k2 : Nat) (hk1 : 0 < k1) (hk2 : 0 < k2) :
+    ∃ r1 r2, downBy Reduce.sum.apply (.cont c) k1 = .ok r1 ∧ downBy Reduce.sum.apply (.cont r1) k2 = .ok r2 ∧
+      downBy Reduce.sum.apply (.cont c) (k1 * k2) = .ok r2 := by
+  obtain ⟨r1, r2, r12, h1, h2, h12, hst, hdt, hd2, hd12⟩ :=
+    by_by' Reduce.sum.apply Reduce.sum.apply Reduce.sum.apply c k1 k2 hk1 hk2
+  refine ⟨r1, r2, h1, h2, ?_⟩
+  rw [h12]
+  congr 1
+  have hd : r2.data = r12.data := by
+    rw [hd2, hd12]
+    apply List.map_congr_left
+    intro B hB
+    have hlen := mem_blocks_length _ _ _ hB
+    exact sum_blocks k1 hk1 k2 B hlen
+  cases r2; cases r12
+  simp only at hst hdt hd
+  rw [hst, hdt, hd]
+
+example : (downBy Reduce.sum.apply (.cont ⟨100, 3, [1, 2, 3, 4, 5, 6, 7, 8, 9, 10, 11, 12, 13]⟩) 6).toOption
+    = some ⟨107, 18, [21, 57]⟩ := by decide +kernel
+
+/-- For `reduce ∈ {sum, mean, min, max}` (reductions compatible with equal blocks, `BlockCompat`) two successive
+    `downsampled_by` ARE one: `downsampled_by(k₁).downsampled_by(k₂) = downsampled_by(k₁·k₂)` — samples, timestamps,
+    period.  (Not for the median: the median of block medians is not the median; the tie exercises that case and the
+    oracle judges it stage by stage.) -/
+theorem by_by_compat (red : Reduce) (hred : red ≠ .median) (c : Cont) (k1 k2 : Nat) (hk1 : 0 < k1) (hk2 : 0 < k2) :
+    ∃ r1 r2, downBy red.apply (.cont c) k1 = .ok r1 ∧ downBy red.apply (.cont r1) k2 = .ok r2 ∧
+      downBy red.apply (.cont c) (k1 * k2) = .ok r2 := by
+  have hc : BlockCompat red.apply := by
+    cases red with
+    | mean => exact compat_mean
+    | sum => exact compat_sum
+    | min => exact compat_min
+    | max => exact compat_max
+    | median => exact absurd rfl hred
+  exact by_by_compat' red.apply hc c k1 k2 hk1 hk2
+
+example : (downBy Reduce.max.apply (.cont ⟨100, 3, [1, 9, 3, 4, 5, 6, 7, 8, 2, 10, 11, 12, 13]⟩) 6).toOption
+    = some ⟨107, 18, [9, 12]⟩ := by decide +kernel
 
 /-- Long channels are handed to the model as a rule (`sample i = v i`, `contOf`); the model then answers
     a window of the downsampled channel from the rule alone.  That window IS the slice `[i0 : i0 + cnt]`
@@ -293,7 +425,229 @@ theorem F3_witness :
       (250, 300) ∈ fullWindows 100 300 50 ∧ (250, 300) ∉ pairs (arange 100 300 50) := by
   decide +kernel
 
-/-! ## `downsampled_like` (`pw = false` is the code as it is; `pw = true` the proposed repair of F9) -/
+/-! ## the step `downsampled_to` uses, and when it answers (deepening round D) -/
+
+/-- `method="force"`: the requested step is used as it is; the only refusal is upsampling (a source period
+    longer than the requested one). -/
+theorem to_step_force (steps : List Int) (target step : Int) :
+    targetStep steps target .force = .ok step ↔ (∀ d ∈ steps, d ≤ target) ∧ step = target := by
+  unfold targetStep
+  by_cases h : steps.any (fun d => decide (target < d)) = true
+  · rw [if_pos h]
+    simp only [List.any_eq_true, decide_eq_true_eq] at h
+    obtain ⟨d, hd, hlt⟩ := h
+    constructor
+    · intro h'; cases h'
+    · rintro ⟨hall, _⟩; have := hall d hd; omega
+  · rw [if_neg h]
+    simp only [List.any_eq_true, decide_eq_true_eq, not_exists, not_and, Int.not_lt] at h
+    constructor
+    · intro h'; cases h'; exact ⟨h, rfl⟩
+    · rintro ⟨_, rfl⟩; rfl
+
+/-- `method="safe"` / `"ceil"`: a single source period `d ≤ target` is required; `safe` answers only for an exact
+    multiple, `ceil` rounds the step DOWN to the nearest multiple of `d` (the rate up).  (`d = 0`: numpy's integer
+    modulo by zero is 0.) -/
+theorem to_step_safe_ceil (steps : List Int) (target step : Int) (m : Method) (hm : m ≠ .force) :
+    targetStep steps target m = .ok step ↔
+      ∃ d, steps = [d] ∧ d ≤ target ∧
+        ((d = 0 ∨ target % d = 0) ∧ step = target ∨
+         (d ≠ 0 ∧ target % d ≠ 0 ∧ m = .ceil ∧ step = target - target % d)) := by
+  unfold targetStep
+  by_cases h : steps.any (fun d => decide (target < d)) = true
+  · rw [if_pos h]
+    simp only [List.any_eq_true, decide_eq_true_eq] at h
+    obtain ⟨d, hd, hlt⟩ := h
+    constructor
+    · intro h'; cases h'
+    · rintro ⟨d', rfl, hle, _⟩
+      simp only [List.mem_singleton] at hd
+      subst hd; omega
+  · rw [if_neg h]
+    simp only [List.any_eq_true, decide_eq_true_eq, not_exists, not_and, Int.not_lt] at h
+    cases m with
+    | force => exact absurd rfl hm
+    | safe =>
+      match steps, h with
+      | [], _ => simp
+      | [d], h =>
+        have hd := h d (by simp)
+        by_cases h0 : d = 0
+        · subst h0; simp; constructor <;> (intro h'; omega)
+        · by_cases hr : target % d = 0
+          · simp [h0, hr, hd]; constructor <;> (intro h'; omega)
+          · simp [h0, hr, hd]
+      | d :: e :: r, _ => simp
+    | ceil =>
+      match steps, h with
+      | [], _ => simp
+      | [d], h =>
+        have hd := h d (by simp)
+        by_cases h0 : d = 0
+        · subst h0; simp; constructor <;> (intro h'; omega)
+        · by_cases hr : target % d = 0
+          · simp [h0, hr, hd]; constructor <;> (intro h'; omega)
+          · simp [h0, hr, hd]; constructor <;> (intro h'; omega)
+      | d :: e :: r, _ => simp
+
+/-- What `ceil` returns is the LARGEST multiple of the source period not exceeding the requested step, and it is
+    still at least one source period (no upsampling after rounding). -/
+theorem to_step_ceil_largest_multiple (d target step : Int) (hd : 0 < d)
+    (h : targetStep [d] target .ceil = .ok step) :
+    step % d = 0 ∧ step ≤ target ∧ target < step + d ∧ d ≤ step := by
+  obtain ⟨d', hd', hle, hc⟩ := (to_step_safe_ceil [d] target step .ceil (by decide)).mp h
+  simp only [List.cons.injEq, and_true] at hd'
+  subst hd'
+  have hnn := Int.emod_nonneg target (by omega : d ≠ 0)
+  have hlt := Int.emod_lt_of_pos target hd
+  have hdm := Int.emod_add_mul_ediv target d
+  have hq : 1 ≤ target / d := by
+    by_cases hq : 1 ≤ target / d
+    · exact hq
+    · have : target / d ≤ 0 := by omega
+      have := Int.mul_le_mul_of_nonneg_left this (Int.le_of_lt hd)
+      omega
+  have hq' : d * 1 ≤ d * (target / d) := Int.mul_le_mul_of_nonneg_left hq (Int.le_of_lt hd)
+  rcases hc with ⟨h0, hs⟩ | ⟨_, _, _, rfl⟩
+  · subst hs
+    rcases h0 with h0 | h0
+    · omega
+    · refine ⟨h0, by omega, by omega, by omega⟩
+  · refine ⟨?_, by omega, by omega, by omega⟩
+    have : target - target % d = d * (target / d) := by omega
+    rw [this]; exact Int.mul_emod_right _ _
+
+example : targetStep [10] 47 .ceil = .ok 40 ∧ targetStep [10] 47 .safe = .error .value ∧
+    targetStep [10] 47 .force = .ok 47 ∧ targetStep [10] 9 .force = .error .value ∧
+    targetStep [10, 20] 40 .safe = .error .value ∧ targetStep [10, 20] 40 .force = .ok 40 := by decide
+
+/-- When `downsampled_to` answers at all (settled positive step): exactly when `where` is valid and the span is
+    LONGER than one step.  A span of exactly one step — one complete window — is refused (`ValueError`); that is
+    finding F3 at its smallest. -/
+theorem to_answers_iff (f : List Rat → Rat) (s : Src) (target step st sp : Int) (m : Method) (wh : Option Bool)
+    (ht : targetStep s.timesteps target m = .ok step) (hs : 0 < step)
+    (hst : s.start? = some st) (hsp : s.stop? = some sp) :
+    (∃ out, downTo f s target (some m) wh = .ok out) ↔ wh ≠ none ∧ step < sp - st := by
+  rw [to_is_over f s target step st sp m wh ht (by omega) hst hsp, over_errors]
+  have hin := (to_windows_disjoint st sp step hs).2
+  constructor
+  · rintro ⟨r0, rl, st', sp', h0, hl, hst', hsp', hno, hw⟩
+    refine ⟨hw, ?_⟩
+    have hm : r0 ∈ pairs (arange st sp step) := List.mem_of_mem_head? h0
+    have h2 := (hin r0 hm).2.2
+    rw [to_windows] at hm
+    obtain ⟨i, _, rfl⟩ := (mem_blockWins _ _ _ _).mp hm
+    have h1 : 0 ≤ (i : Int) * step := Int.mul_nonneg (by omega) (Int.le_of_lt hs)
+    simp only at h2
+    linarith
+  · rintro ⟨hw, hlt⟩
+    have hmem : (st, st + step) ∈ pairs (arange st sp step) := by
+      rw [to_windows, mem_blockWins]
+      refine ⟨0, ?_, by simp⟩
+      have h2 : ¬ (cdiv (sp - st) step ≤ 1) := by
+        rw [cdiv_le_iff hs]; omega
+      unfold cdiv at h2
+      omega
+    have hne : pairs (arange st sp step) ≠ [] := List.ne_nil_of_mem hmem
+    obtain ⟨r0, h0⟩ : ∃ r0, (pairs (arange st sp step)).head? = some r0 := by
+      cases hp : pairs (arange st sp step) with
+      | nil => exact absurd hp hne
+      | cons a t => exact ⟨a, rfl⟩
+    obtain ⟨rl, hl⟩ : ∃ rl, (pairs (arange st sp step)).getLast? = some rl :=
+      ⟨_, List.getLast?_eq_some_getLast hne⟩
+    refine ⟨r0, rl, st, sp, h0, hl, hst, hsp, ?_, hw⟩
+    have a0 := hin r0 (List.mem_of_mem_head? h0)
+    have al := hin rl (List.mem_of_getLast? hl)
+    omega
+
+
+/-- Non-vacuity of `to_answers_iff`: five samples of period 10 and a step of 50 (exactly one complete window) are
+    refused; six samples are answered. -/
+example : targetStep (Src.cont ⟨100, 10, [1, 2, 3, 4, 5]⟩).timesteps 50 .safe = .ok 50 ∧
+    downTo Reduce.mean.apply (.cont ⟨100, 10, [1, 2, 3, 4, 5]⟩) 50 (some .safe) (some true) = .error .value ∧
+    downTo Reduce.mean.apply (.cont ⟨100, 10, [1, 2, 3, 4, 5, 6]⟩) 50 (some .safe) (some true) = .ok [(120, 3)] := by
+  decide +kernel
+
+/-- The Hz → ns conversion (`targetOfFreq`, executed on doubles: `int(1e9 / frequency)`) is the only thing between
+    `downsampled_to(frequency)` and the integer-step function all theorems of this section speak about; its
+    refusals (`ZeroDivisionError`, `ValueError` for nan, `OverflowError`) are passed on; an unknown method is
+    refused before the conversion. -/
+theorem to_freq_is_to (f : List Rat → Rat) (s : Src) (fq : Float) (m : Method) (wh : Option Bool) :
+    (∀ t, targetOfFreq fq = some (.ok t) → downToFreq f s fq (some m) wh = some (downTo f s t (some m) wh)) ∧
+    (∀ e, targetOfFreq fq = some (.error e) → downToFreq f s fq (some m) wh = some (.error e)) ∧
+    downToFreq f s fq none wh = some (.error .value) := by
+  refine ⟨?_, ?_, rfl⟩
+  · intro t h; simp only [downToFreq, h]
+  · intro e h; simp only [downToFreq, h]
+
+/-! ### the Hz → ns conversion, exactly (deepening round D) -/
+
+example : targetOfFreqQ 15625 = some (.ok 64000) := by decide +kernel
+example : targetOfFreqQ (1000000000 / 3) = some (.ok 3) := by decide +kernel
+-- 1e9 / 0.3 = 3333333333.3333335 (double)
+example : truncRoundDouble 37 10 = 3 := by decide +kernel
+
+/-- An integer below 2^53 is a double: rounding leaves it alone. -/
+theorem truncRoundDouble_nat (s : Nat) (h1 : 1 ≤ s) (h2 : s < 2 ^ 53) : truncRoundDouble s 1 = s := by
+  unfold truncRoundDouble
+  rw [if_neg (by omega)]
+  simp only [Nat.div_one]
+  have hL : Nat.log2 (2 * s) ≤ 53 := by
+    have := (Nat.log2_lt (n := 2 * s) (k := 54) (by omega)).mpr (by omega)
+    omega
+  rw [if_pos hL]
+  unfold roundHalfEven
+  simp only [Nat.div_one, Nat.mod_one, Nat.mul_zero]
+  rw [if_pos (by omega)]
+  exact Nat.mul_div_cancel _ (Nat.two_pow_pos _)
+
+/-- Unit conversion, exact case: when `1e9 / frequency` is an integer number of nanoseconds below 2^53 (the frequency
+    is exactly `1e9 / s` Hz), `int(1e9 / frequency)` is that integer — no rounding, no truncation loss. -/
+theorem step_of_exact_freq (fq : Rat) (s : Nat) (h1 : 1 ≤ s) (h2 : s < 2 ^ 53) (hq : fq = 1000000000 / (s : Rat)) :
+    targetOfFreqQ fq = some (.ok (s : Int)) := by
+  have hs : (0 : Rat) < (s : Rat) := by exact_mod_cast h1
+  have hpos : 0 < fq := by rw [hq]; exact div_pos (by norm_num) hs
+  have hquot : (1000000000 : Rat) / fq = (s : Rat) := by
+    rw [hq, div_div_eq_mul_div]; exact mul_div_cancel_left₀ _ (by norm_num)
+  unfold targetOfFreqQ
+  rw [if_neg (ne_of_gt hpos)]
+  simp only [if_neg (not_lt.mpr (le_of_lt hpos)), hquot]
+  have hlt : ¬ ((s : Rat) ≥ 4611686018427387904) := by
+    have : (s : Rat) < 2 ^ 53 := by exact_mod_cast h2
+    norm_num at this ⊢
+    linarith
+  rw [if_neg hlt]
+  have hn : ((s : Rat)).num.toNat = s := by simp
+  have hd : ((s : Rat)).den = 1 := by simp
+  rw [hn, hd, truncRoundDouble_nat s h1 h2]
+
+/-- The property's "in particular", at the level of the FREQUENCY argument: when the frequency handed to
+    `downsampled_to` is exactly `f_s / k = 1e9 / (k·dt)` Hz (period `k·dt` below 2^53 ns) and the channel does not hold a
+    whole number of blocks, `downsampled_to(frequency)` returns the samples of `downsampled_by(k)` (any method,
+    `where="center"`); for a whole number of blocks see `to_multiple_eq_by_dropLast` (finding F3). -/
+theorem to_freq_eq_by (f : List Rat → Rat) (c : Cont) (k : Nat) (m : Method) (fq : Rat) (hdt : 0 < c.dt) (hk : 0 < k)
+    (hn : k ≤ c.data.length) (hnm : c.data.length % k ≠ 0) (hs : (k : Int) * c.dt < 2 ^ 53)
+    (hfq : fq = 1000000000 / (((k : Int) * c.dt : Int) : Rat)) :
+    ∃ r, downBy f (.cont c) k = .ok r ∧
+      downToFreqQ f (.cont c) fq (some m) (some true) = some (.ok r.samples) := by
+  obtain ⟨r, hr, hto⟩ := to_eq_by f c k m hdt hk hn hnm
+  refine ⟨r, hr, ?_⟩
+  have hpos : 0 < (k : Int) * c.dt := Int.mul_pos (by exact_mod_cast hk) hdt
+  have hcast : ((((k : Int) * c.dt).toNat : Nat) : Int) = (k : Int) * c.dt := Int.toNat_of_nonneg (by omega)
+  have hr' : ((((k : Int) * c.dt).toNat : Nat) : Rat) = (((k : Int) * c.dt : Int) : Rat) := by
+    rw [← Int.cast_natCast (R := Rat) ((k : Int) * c.dt).toNat, hcast]
+  have hstep := step_of_exact_freq fq ((k : Int) * c.dt).toNat (by omega) (by omega)
+    (by rw [hfq, hr'])
+  unfold downToFreqQ
+  simp only [hstep, hcast]
+  rw [hto]
+
+/-- Non-vacuity: 23 samples at 78.125 kHz (`dt = 12800` ns) downsampled to 15625 Hz = `f_s / 5`. -/
+example : downToFreqQ Reduce.mean.apply (.cont ⟨0, 12800, (List.range 23).map fun (i : Nat) => (i : Rat)⟩) 15625 (some .safe) (some true)
+    = some (.ok [(25600, 2), (89600, 7), (153600, 12), (217600, 17)]) := by decide +kernel
+
+/-! ## `downsampled_like` (`pw = true` is the code as it is since the repair of F9 in /repo d1dbc24; `pw = false` is the
+    code before that repair, kept with its theorems and the F9 witness as the record of the finding) -/
 
 /-- For a reference with strictly increasing timestamps the two returned channels carry identical
     timestamps, and the cropped reference is a contiguous run `reference[i:j]` of the reference. -/
@@ -315,7 +669,7 @@ theorem like_value_spec (pw : Bool) (f : List Rat → Rat) (c : Cont) (hdt : 0 <
   obtain ⟨i, j, hk, _⟩ := likeKept_slice pw c ref.timestamps
   exact ⟨i, j, hk⟩
 
-/-- Which reference samples are kept, as the code is: for a sorted reference exactly those with
+/-- Which reference samples were kept by the code BEFORE the repair of F9 (`pw = false`): for a sorted reference exactly those with
     `T - δ₀ ≥ start` and `T < stop`, δ₀ being the FIRST window length — not the sample's own window
     length, which is finding F9. -/
 theorem like_kept_spec (c : Cont) (T : List Int) (hs : T.Pairwise (· < ·)) :
@@ -323,7 +677,7 @@ theorem like_kept_spec (c : Cont) (T : List Int) (hs : T.Pairwise (· < ·)) :
       decide (c.start ≤ p.1 - (likeDeltas T).headD 0) && decide (p.1 < c.stop) :=
   likeKept_spec' c T hs
 
-/-- Windows lie within the source span — for the code as it is this holds whenever no window is longer
+/-- Windows lie within the source span — for the code before the repair of F9 (`pw = false`) this holds whenever no window is longer
     than the first one (constant reference period, or a frame rate that only goes up); the complementary
     class is finding F9. -/
 theorem like_within_span (c : Cont) (T : List Int) (hs : T.Pairwise (· < ·))
@@ -331,7 +685,7 @@ theorem like_within_span (c : Cont) (T : List Int) (hs : T.Pairwise (· < ·))
     ∀ p ∈ likeKept false c T, c.start ≤ p.1 - p.2 ∧ p.1 < c.stop :=
   like_within_span' c T hs hδ
 
-/-- ext: the proposed repair of F9 (`searchsorted(T - δ, start)`, `pw = true`) keeps exactly the
+/-- The code as it is now (`searchsorted(T - δ, start)`, `pw = true`, the repair of F9) keeps exactly the
     reference samples whose OWN window lies inside the source span (window starts in order). -/
 theorem like_repaired_kept_spec (c : Cont) (T : List Int) (hs : T.Pairwise (· < ·))
     (hw : (T.zip (likeDeltas T)).Pairwise (fun a b => a.1 - a.2 ≤ b.1 - b.2)) :
@@ -344,6 +698,88 @@ example : ∀ p ∈ [0, 20, 40, 85, 95, 105].zip (likeDeltas [0, 20, 40, 85, 95,
     p.2 ≤ (likeDeltas [0, 20, 40, 85, 95, 105]).headD 0 := by decide
 example : ([0, 10, 20, 50, 80, 110].zip (likeDeltas [0, 10, 20, 50, 80, 110])).Pairwise
     (fun a b => a.1 - a.2 ≤ b.1 - b.2) := by decide
+
+/-! ## `downsampled_like`, deepening round D: disjoint windows, the code as it is now (`pw = true`) -/
+
+/-- Windows are disjoint: for a strictly increasing reference whose frame-rate changes are isolated (a period
+    longer than its predecessor is not followed by a still longer one — `IsolatedGrowth`), every window
+    `[T - δ, T)` begins at or after the PREVIOUS reference timestamp, i.e. after the end of every earlier
+    window; consequently the window starts are in order (the hypothesis `hw` of `like_repaired_kept_spec`
+    is established by the repair, not assumed). -/
+theorem like_windows_disjoint (T : List Int) (hs : T.Pairwise (· < ·)) (hg : IsolatedGrowth (diff T)) :
+    (T.zip (likeDeltas T)).Pairwise (fun a b => a.1 ≤ b.1 - b.2) ∧
+      (T.zip (likeDeltas T)).Pairwise (fun a b => a.1 - a.2 ≤ b.1 - b.2) :=
+  ⟨like_windows_disjoint' T hs hg, like_window_starts_sorted' T hs hg⟩
+
+/-- Non-vacuity: the reference of pylake's own test (one long frame, 4 → 6 → 4). -/
+example : [0, 4, 8, 12, 16, 34, 40, 46, 50, 54].Pairwise (· < ·) ∧
+    IsolatedGrowth (diff [0, 4, 8, 12, 16, 34, 40, 46, 50, 54]) := by decide
+
+/-- Which reference samples the code (as it is now) keeps: exactly those whose OWN window `[T - δ, T)` lies inside
+    the source span — no hypothesis on the window starts any more. -/
+theorem like_kept_inside_span (c : Cont) (T : List Int) (hs : T.Pairwise (· < ·))
+    (hg : IsolatedGrowth (diff T)) :
+    likeKept true c T = (T.zip (likeDeltas T)).filter fun p =>
+      decide (c.start ≤ p.1 - p.2) && decide (p.1 < c.stop) :=
+  likeKept_repaired' c T hs (like_window_starts_sorted' T hs hg)
+
+/-- End-to-end specification of `downsampled_like` as the code is: for a strictly increasing reference with
+    isolated frame-rate changes the answer is, in reference order, one sample for EVERY reference timestamp whose
+    window `[T - δ, T)` lies inside `[start, stop)`; its value is `f` of exactly the source samples in that window;
+    the cropped reference carries the same timestamps; the windows are pairwise disjoint, non-inverted and lie
+    within the source span. -/
+theorem like_spec (f : List Rat → Rat) (c : Cont) (hdt : 0 < c.dt) (r ds refc : List Sample)
+    (h : like true f (.cont c) (.ts r) = .ok (ds, refc))
+    (hs : (r.map (·.1)).Pairwise (· < ·)) (hg : IsolatedGrowth (diff (r.map (·.1)))) :
+    ∃ W : List (Int × Int),
+      W = ((r.map (·.1)).zip (likeDeltas (r.map (·.1)))).filter
+            (fun p => decide (c.start ≤ p.1 - p.2) && decide (p.1 < c.stop)) ∧
+      ds = W.map (fun p => (p.1, f ((c.samples.filter (inWin (p.1 - p.2) p.1)).map (·.2)))) ∧
+      refc.map (·.1) = W.map (·.1) ∧
+      W.Pairwise (fun a b => a.1 ≤ b.1 - b.2) ∧
+      ∀ p ∈ W, c.start ≤ p.1 - p.2 ∧ p.1 - p.2 ≤ p.1 ∧ p.1 < c.stop := by
+  refine ⟨_, rfl, ?_, ?_, ?_, ?_⟩
+  · rw [← like_kept_inside_span c _ hs hg]
+    exact like_values' true f c hdt (.ts r) ds refc h
+  · have h1 := (like_same' true f _ _ ds refc h hs).1
+    rw [← h1, like_values' true f c hdt (.ts r) ds refc h, ← like_kept_inside_span c _ hs hg]
+    simp only [List.map_map, Src.timestamps]
+    rfl
+  · exact (like_windows_disjoint' _ hs hg).filter _
+  · intro p hp
+    rw [List.mem_filter] at hp
+    obtain ⟨hm, hc⟩ := hp
+    simp only [Bool.and_eq_true, decide_eq_true_eq] at hc
+    refine ⟨hc.1, ?_, hc.2⟩
+    obtain ⟨j, hj, hjp⟩ := List.mem_iff_getElem.mp hm
+    have hlen : ((r.map (·.1)).zip (likeDeltas (r.map (·.1)))).length = (r.map (·.1)).length := by
+      rw [List.length_zip]; exact Nat.min_eq_left (likeDeltas_length _)
+    have e := zip_getD (r.map (·.1)) _ (likeDeltas_length _) j (by omega)
+    rw [List.getElem?_eq_getElem hj, hjp] at e
+    simp only [Option.some.injEq] at e
+    have := (likeDeltas_bounds _ hs hg j (by omega)).1
+    rw [e]; simp only; omega
+
+/-- Necessity of `IsolatedGrowth` (kernel-checked test on two references): periods 10, 20, 30, 30 grow twice in a
+    row; the repair gives window lengths 10, 10, 30, 30, 30 and the window `[0, 30)` of the sample at 30 overlaps
+    the window `[0, 10)` of the sample at 10.  With periods 10, 20, 50, 50 even the window STARTS are out of order
+    (the case the tie leaves out: `np.searchsorted` on an unsorted array). -/
+theorem like_overlap_witness :
+    [0, 10, 30, 60, 90].Pairwise (· < ·) ∧ ¬ IsolatedGrowth (diff [0, 10, 30, 60, 90]) ∧
+    likeDeltas [0, 10, 30, 60, 90] = [10, 10, 30, 30, 30] ∧
+    ¬ ([0, 10, 30, 60, 90].zip (likeDeltas [0, 10, 30, 60, 90])).Pairwise (fun a b => a.1 ≤ b.1 - b.2) ∧
+    ¬ ([0, 10, 30, 80, 130].zip (likeDeltas [0, 10, 30, 80, 130])).Pairwise (fun a b => a.1 - a.2 ≤ b.1 - b.2) := by
+  decide +kernel
+
+
+/-- Non-vacuity of `like_spec`: pylake's own test input. -/
+example : (like true Reduce.mean.apply
+      (.cont ⟨0, 2, [1, 1, 2, 2, 3, 3, 4, 4, 5, 5, 5, 5, 5, 5, 6, 6, 6, 7, 7, 7, 8, 8, 8, 9, 9, 9]⟩)
+      (.ts [(0, 0), (4, 1), (8, 2), (12, 3), (16, 4), (34, 6), (40, 7), (46, 8), (50, 9), (54, 10)])).toOption.map (·.1)
+    = some [(4, 1), (8, 2), (12, 3), (16, 4), (34, 6), (40, 7), (46, 8), (50, 9)] := by decide +kernel
+
+/-- The flag the protocol op `c04.likewins` prints is the hypothesis of the theorems above. -/
+theorem isolatedGrowth_flag (d : List Int) : isolatedGrowthB d = true ↔ IsolatedGrowth d := isolatedGrowthB_iff d
 
 /-- Closed form of the sequential change-point repair (`delta_time[i + 1] = delta_time[i + 2]` for
     every `i` with `d[i] < d[i+1]`, abandoned at the first `IndexError`): a period longer than its
@@ -378,6 +814,56 @@ theorem F9_witness :
         (.ts [(0, 0), (10, 1), (20, 2), (50, 3), (80, 4), (110, 5)])).toOption.map (·.1)
       = some [(110, 11 / 2)] := by decide +kernel
 
+/-! ## `downsampled_like`: refusals (deepening round D) -/
+
+/-- The refusals of `downsampled_like`, in the order the code tests them. -/
+theorem like_refusals (pw : Bool) (f : List Rat → Rat) (s : Src) (c' : Cont) (r l : List Sample) :
+    like pw f s (.cont c') = .error .type ∧
+    like pw f (.ts l) (.ts r) = .error .notImpl := ⟨by cases s <;> rfl, rfl⟩
+
+/-- When `downsampled_like` answers for a continuous source and a time-series reference: the reference holds at
+    least two samples (`IndexError` otherwise), the source starts no later than the second-to-last reference
+    timestamp `T[-1] - δ[-1]` and stops after the first one (`RuntimeError` otherwise), and at least one reference
+    sample is kept (`IndexError` otherwise: the result would be empty). -/
+theorem like_answers_iff (pw : Bool) (f : List Rat → Rat) (c : Cont) (r : List Sample) :
+    (∃ o, like pw f (.cont c) (.ts r) = .ok o) ↔
+      ∃ t0 tl dl, (r.map (·.1)).head? = some t0 ∧ (r.map (·.1)).getLast? = some tl ∧
+        (diff (r.map (·.1))).getLast? = some dl ∧ c.start ≤ tl - dl ∧ t0 < c.stop ∧
+        likeKept pw c (r.map (·.1)) ≠ [] := by
+  unfold like
+  simp only
+  constructor
+  · rintro ⟨o, ho⟩
+    split at ho
+    · rename_i tl dl t0 h1 h2 h3
+      split at ho
+      · cases ho
+      · rename_i hno
+        refine ⟨t0, tl, dl, h3, h1, h2, by omega, by omega, ?_⟩
+        intro hk
+        simp [likeWindows, hk] at ho
+    · cases ho
+  · rintro ⟨t0, tl, dl, h3, h1, h2, ha, hb, hk⟩
+    simp only [h1, h2, h3]
+    rw [if_neg (by omega)]
+    cases hK : likeKept pw c (r.map (·.1)) with
+    | nil => exact absurd hK hk
+    | cons a t =>
+      have hne : (List.map (fun (x : Int × List Rat) => (x.1, f x.2)) (likeWindows pw c (r.map (·.1)))) ≠ [] := by
+        simp [likeWindows, hK]
+      generalize (List.map (fun (x : Int × List Rat) => (x.1, f x.2)) (likeWindows pw c (r.map (·.1)))) = out at *
+      cases out with
+      | nil => exact absurd rfl hne
+      | cons x xs =>
+        have : ∃ b, (x :: xs).getLast? = some b := ⟨_, List.getLast?_eq_some_getLast (by simp)⟩
+        obtain ⟨b, hb'⟩ := this
+        simp only [List.head?_cons, hb']
+        exact ⟨_, rfl⟩
+
+example : like true Reduce.mean.apply (.cont ⟨100, 10, [1, 2, 3]⟩) (.ts [(120, 0)]) = .error .index := by decide +kernel
+example : like true Reduce.mean.apply (.cont ⟨100, 10, [1, 2, 3]⟩) (.ts [(300, 0), (320, 1), (340, 2)]) = .error .runtime := by
+  decide +kernel
+
 /-! ## Arithmetic between two channels -/
 
 /-- `a <op> b` answers only on identical timestamps; the result keeps those timestamps and its data
@@ -399,5 +885,63 @@ theorem arith_refused (op : Op) (a b : Src) :
 example : (arith .div (.cont ⟨100, 10, [1, 2]⟩) (.ts [(100, 3), (110, 4)])).toOption.map (·.samples)
     = some [(100, 1 / 3), (110, 1 / 2)] := by decide +kernel
 example : arith .add (.cont ⟨100, 10, [1, 2]⟩) (.ts [(100, 3), (111, 4)]) = .error .runtime := by decide +kernel
+
+/-! ### negation, scalar operands, chains (deepening round D) -/
+
+/-- `-a` and arithmetic with a scalar keep the timestamps and act element-wise. -/
+theorem neg_scalar_spec (op : Op) (a : Src) (x : Rat) (rev : Bool) :
+    (neg a).timestamps = a.timestamps ∧ (neg a).data = a.data.map (fun v => -v) ∧
+    (arithScalar op a x rev).timestamps = a.timestamps ∧
+    (arithScalar op a x rev).data = a.data.map (fun v => if rev then op.apply x v else op.apply v x) := by
+  refine ⟨withData_timestamps _ _ (by simp), withData_data _ _ (by simp),
+    withData_timestamps _ _ (by simp), withData_data _ _ (by simp)⟩
+
+/-- Chaining: the result of `a <op₁> b` is again a channel on the timestamps of `a`, so `(a <op₁> b) <op₂> c`
+    answers exactly when `c` carries those timestamps too, and the final result still carries them. -/
+theorem arith_chain (op1 op2 : Op) (a b c r : Src) (ha : a.wf) (hb : b.wf) (hc : c.wf)
+    (h : arith op1 a b = .ok r) :
+    r.wf ∧ ((∃ r', arith op2 r c = .ok r') ↔ c.timestamps = a.timestamps) ∧
+      ∀ r', arith op2 r c = .ok r' → r'.timestamps = a.timestamps ∧
+        r'.data = List.zipWith op2.apply (List.zipWith op1.apply a.data b.data) c.data := by
+  obtain ⟨_, h2, h3, _⟩ := arith_spec op1 a b ha hb r h
+  have hr : r.wf := by
+    unfold arith at h
+    split at h
+    · cases h
+    · simp only [Except.ok.injEq] at h; rw [← h]; exact withData_wf a _ ha
+  refine ⟨hr, ?_, ?_⟩
+  · constructor
+    · rintro ⟨r', hr'⟩
+      have := (arith_spec op2 r c hr hc r' hr').1
+      rw [this, h2]
+    · intro hct
+      exact (arith_refused op2 r c).2 (by rw [hct, h2])
+  · intro r' hr'
+    obtain ⟨_, g2, g3, _⟩ := arith_spec op2 r c hr hc r' hr'
+    exact ⟨by rw [g2, h2], by rw [g3, h3]⟩
+
+/-- Non-vacuity of `arith_chain`: `(a + b) * c` on three channels with the same timestamps; a shifted `c` is refused. -/
+example : ((arith .add (.cont ⟨100, 10, [1, 2]⟩) (.ts [(100, 3), (110, 4)])).toOption.bind fun r =>
+      (arith .mul r (.cont ⟨100, 10, [2, 3]⟩)).toOption).map (·.samples) = some [(100, 8), (110, 18)] := by decide +kernel
+example : ((arith .add (.cont ⟨100, 10, [1, 2]⟩) (.ts [(100, 3), (110, 4)])).toOption.map fun r =>
+      arith .mul r (.cont ⟨101, 10, [2, 3]⟩)) = some (.error .runtime) := by decide +kernel
+
+/-- `a - b` is `a + (-b)`: same refusals, same result. -/
+theorem sub_eq_add_neg (a b : Src) : arith .sub a b = arith .add a (neg b) := by
+  have ht : (neg b).timestamps = b.timestamps := withData_timestamps _ _ (by simp)
+  have hd : (neg b).data = b.data.map (fun v => -v) := withData_data _ _ (by simp)
+  unfold arith
+  rw [ht, hd]
+  congr 2
+  rw [List.zipWith_map_right]
+  have e : Op.sub.apply = fun (a b : Rat) => Op.add.apply a (-b) := by
+    funext x y
+    simp only [Op.apply]
+    exact Rat.sub_eq_add_neg x y
+  rw [e]
+
+example : (arith .sub (.cont ⟨100, 10, [5, 7]⟩) (.ts [(100, 1), (110, 3)])).toOption.map (·.samples)
+    = some [(100, 4), (110, 4)] := by decide +kernel
+example : (arithScalar .div (.ts [(3, 2), (9, 4)]) 8 true).samples = [(3, 4), (9, 2)] := by decide +kernel
 
 end Verif.C04
